@@ -196,11 +196,28 @@ def run(prog, check):
             and not n.generators[0].ifs]
     check.ob('C12.R4', '%s::all-terms-rendered' % rhs.key, bool(comp), rhs.where,
              'every term of TermList is rendered' if comp else 'not every term is rendered (filter or other source)', 'three terms')
+    # ---- R6: AddTerm stores / merges a private Term object, never the caller's ---------------------------
+    at = E.methods.get('AddTerm')
+    if at is None:
+        raise AnalysisError('Equation.AddTerm not found')
+    check.saw(at)
+    ga = cfgmod.build(at)
+    tp = at.params()[1]
+    copies = [n for n in ga.stmt_nodes() if n.kind == 'stmt' and isinstance(n.ast, ast.Assign) and isinstance(n.ast.targets[0], ast.Name)
+              and n.ast.targets[0].id == tp and isinstance(n.ast.value, ast.Call) and call_name(n.ast.value) in ('Term', 'copy', 'deepcopy')]
+    uses = [n for n in ga.stmt_nodes() if n.kind == 'stmt' and (
+        any(isinstance(c, ast.Call) and call_name(c) == 'append' and c.args and isinstance(c.args[0], ast.Name) and c.args[0].id == tp for c in ast.walk(n.ast)))]
+    ok = bool(copies) and bool(uses) and all(ga.must_pass(ga.entry, u, copies) for u in uses)
+    check.ob('C12.R6', '%s::stores-private-copy' % at.key, ok, at.where,
+             'the term object placed in the equation is constructed inside AddTerm on every path' if ok else
+             'the caller\'s own Term object can be placed in the equation: a later merge changes the caller\'s object / another equation sharing it',
+             'the same Term object added to two equations, or three times to one')
     # ---- AddTerm: merge only textually equal terms (R1 companion) -----------------------------------
     check.floor('C12.R1', 3)
     check.floor('C12.R2', 5)
     check.floor('C12.R3', 4)
     check.floor('C12.R4', 4)
+    check.floor('C12.R6', 1)
     if check.tier == 'thorough':
         sign_parsing(prog, check, T)
         check.floor('C12.R5', 12)
